@@ -3,11 +3,20 @@ use crate::Ctx;
 
 pub mod common;
 pub mod c01;
+pub mod c03;
+pub mod c04;
+pub mod c05;
+pub mod hist;
 
 pub fn run(engine: &str, ctx: &Ctx, rep: &mut Report) -> bool {
     match engine {
         "c01" => c01::run(ctx, rep, c01::Judge::CrateDecoders),
         "c02" => c01::run(ctx, rep, c01::Judge::Reference),
+        "c03" => c03::run(ctx, rep),
+        "c04" => c04::run(ctx, rep),
+        "c05" => c05::run(ctx, rep),
+        "c06" => hist::run_c06(ctx, rep),
+        "c07" => hist::run_c07(ctx, rep),
         _ => return false,
     }
     true
